@@ -158,7 +158,9 @@ func wrun(args []string) error {
 			if i%10 == 9 {
 				sz *= 4
 			}
+			g.Refusals = i%4 == 1 // calls the writer must refuse (unknown channel, unknown schema) mixed in
 			w := g.Workload(fmt.Sprintf("r%d-%d", *seed, i), sz)
+			g.Refusals = false
 			if i%5 == 2 { // channels re-announced after messages that use them
 				w.Calls = g.Reannounce(w.Calls)
 			}
